@@ -192,14 +192,15 @@ func EvaluableChildren(n *Node) []*Node {
 	return n.Sub
 }
 
-// Localise returns the smallest sub-expression of n for which fails still
+// Localise returns a smallest sub-expression of n for which fails still
 // holds (n itself is assumed to fail), together with the extra variable
-// bindings under which it was evaluated. It descends into the bodies of for
-// expressions / template for directives by binding the iteration variables to
-// the first element of the collection (evaluated by evalIn).
+// bindings under which it was evaluated. The search covers ALL descendants
+// (a sub-expression can fail although its parent does not, e.g. when a sibling
+// contributes the property the parent is judged by). It descends into the
+// bodies of for expressions / template for directives by binding the iteration
+// variables to the first element of the collection (evaluated by evalIn).
 func Localise(n *Node, fails func(n *Node, extra map[string]cty.Value) bool,
 	evalIn func(n *Node, extra map[string]cty.Value) (cty.Value, bool)) (*Node, map[string]cty.Value) {
-	extra := map[string]cty.Value{}
 	try := func(ch *Node, ex map[string]cty.Value) bool {
 		if ch == nil || ch.K == "none" || ch.K == "anon" {
 			return false
@@ -211,16 +212,18 @@ func Localise(n *Node, fails func(n *Node, extra map[string]cty.Value) bool,
 		}()
 		return ok
 	}
-	for {
-		descended := false
+	budget := 400 // evaluations; ASTs are small, this only guards against pathological blow-up
+	var find func(n *Node, extra map[string]cty.Value, known bool) (*Node, map[string]cty.Value)
+	find = func(n *Node, extra map[string]cty.Value, known bool) (*Node, map[string]cty.Value) {
+		if n == nil || n.K == "none" || n.K == "anon" || budget <= 0 {
+			return nil, nil
+		}
 		for _, ch := range EvaluableChildren(n) {
-			if try(ch, extra) {
-				n = ch
-				descended = true
-				break
+			if r, ex := find(ch, extra, false); r != nil {
+				return r, ex
 			}
 		}
-		if !descended && evalIn != nil {
+		if evalIn != nil {
 			for _, b := range binders(n) {
 				var coll cty.Value
 				ok := false
@@ -253,22 +256,26 @@ func Localise(n *Node, fails func(n *Node, extra map[string]cty.Value) bool,
 					bodies = EvaluableChildren(b.Sub[1])
 				}
 				for _, ch := range bodies {
-					if try(ch, ex2) {
-						n = ch
-						extra = ex2
-						descended = true
-						break
+					if r, ex := find(ch, ex2, false); r != nil {
+						return r, ex
 					}
-				}
-				if descended {
-					break
 				}
 			}
 		}
-		if !descended {
+		if known {
 			return n, extra
 		}
+		budget--
+		if try(n, extra) {
+			return n, extra
+		}
+		return nil, nil
 	}
+	r, ex := find(n, map[string]cty.Value{}, true)
+	if r == nil {
+		return n, map[string]cty.Value{}
+	}
+	return r, ex
 }
 
 // binders lists the for expressions / template for directives whose bodies are not reachable
